@@ -86,6 +86,7 @@ SessionId Service::CreateSession() {
   SessionId id = kInvalidSessionId;
   if (disabled())
     return id;
+  RIME_VERIF_YIELD(RIME_VERIF_CREATESESSION_ACCEPTED);
   try {
     auto session = New<Session>();
     session->Activate();
@@ -108,6 +109,7 @@ SessionId Service::CreateSession() {
 an<Session> Service::GetSession(SessionId session_id) {
   if (disabled())
     return nullptr;
+  RIME_VERIF_YIELD(RIME_VERIF_GETSESSION_ACCEPTED);
   SessionMap::iterator it = sessions_.find(session_id);
   if (it != sessions_.end()) {
     auto& session = it->second;
@@ -157,8 +159,10 @@ void Service::ClearNotificationHandler() {
 void Service::Notify(SessionId session_id,
                      const string& message_type,
                      const string& message_value) {
+  RIME_VERIF_YIELD(RIME_VERIF_NOTIFY_ENTER);
   if (notification_handler_) {
     std::lock_guard<std::mutex> lock(mutex_);
+    RIME_VERIF_YIELD(RIME_VERIF_NOTIFY_LOCKED);
     notification_handler_(session_id, message_type.c_str(),
                           message_value.c_str());
   }
